@@ -15,6 +15,7 @@ func init() {
 }
 
 func runC16(ctx *core.Ctx) {
+	c16Round5(ctx)
 	ctx.Trusted = append(ctx.Trusted, "go/types, go/ssa", "txtar.Format/Parse preserve untouched entries (a C03 round-trip law, not decided here)")
 	p := ctx.P
 	ctx.Rule("U1", "update gating: an update is recorded only when the comparison is not negated, the texts differ, UpdateScripts is set, the command is not cmpenv, and the second file is an archive entry; the recorded value is the actual (first) text under the entry's archive name; on that path the line does not fail; nothing else writes scriptUpdates or scriptFiles", 4)
